@@ -1523,6 +1523,9 @@ fn worlds(thorough: bool) -> Vec<W> {
     }
     // adaptive fee: small saturation range (3 groups): the skip logic runs on every crossing swap
     v.push(W { built: build_af_world(&af_spec("c20-af-g64-sat3", 64, 30_000, 50_000, 5000, None)), kind: Kind::Af, fees: Fees::default(), depth: (2, 3), weight: 2.0 });
+    // a maximum accumulator that is NOT a multiple of 10 000 (one group of distance adds exactly 10 000): saturation lands between two
+    // groups, so "clamp the distance" and "clamp the accumulator" are different computations (35 500: between the third and fourth)
+    v.push(W { built: build_af_world(&af_spec("c20-af-g64-odd-max", 64, 35_500, 50_000, 5000, None)), kind: Kind::Af, fees: Fees::default(), depth: (1, 2), weight: 0.5 });
     // strongest control factor: the total rate passes 65 535 four groups from the reference and reaches the 10 % hard limit at five
     v.push(W { built: build_af_world(&af_spec("c20-af-g64-hot", 64, 350_000, 99_999, 5000, None)), kind: Kind::Af, fees: Fees::default(), depth: (2, 3), weight: 1.0 });
     // zero-liquidity gaps (no full-range position): [-640,-256) [-256,128) gap [128,256) [256,640) — a swap leaves one range, crosses the
